@@ -63,6 +63,8 @@ enum Kind {
 
 struct Nat {
     allowed: HashSet<SocketAddrV4>,
+    /// a static port forward: everything sent to the public address reaches the node, its own datagrams included
+    open: bool,
 }
 
 struct Sock {
@@ -83,6 +85,8 @@ pub struct BindPlan {
     pub ip: Ipv4Addr,
     /// Some(public address) = the node sits behind an address-restricted NAT that maps it there.
     pub nat_public: Option<SocketAddrV4>,
+    /// the mapping is a static port forward (nothing is filtered, hairpinning works)
+    pub nat_open: bool,
 }
 
 /// What the fault hook sees for every datagram handed to the network.
@@ -204,7 +208,7 @@ impl dht::verif::Env for Shared {
                 cv: Arc::new(Condvar::new()),
                 q: BTreeMap::new(),
                 crashed: false,
-                nat: plan.nat_public.map(|_| Nat { allowed: HashSet::new() }),
+                nat: plan.nat_public.map(|_| Nat { allowed: HashSet::new(), open: plan.nat_open }),
                 mailbox: VecDeque::new(),
             },
         );
@@ -360,7 +364,7 @@ impl Inner {
             }
             if let Some(nat) = ds.nat.as_ref() {
                 // address-restricted cone NAT without hairpinning
-                if from == ds.addr || !nat.allowed.contains(&from) {
+                if !nat.open && (from == ds.addr || !nat.allowed.contains(&from)) {
                     if full {
                         self.trace.push(Ev::Drop { t: now, seq, why: "nat-filtered" });
                     }
@@ -402,11 +406,12 @@ pub struct NodeSpec {
     pub public_ip: Option<Ipv4Addr>,
     pub settings: Option<ServerSettings>,
     pub nat_public: Option<SocketAddrV4>,
+    pub nat_open: bool,
 }
 
 impl NodeSpec {
     pub fn server(ip: Ipv4Addr, bootstrap: &[SocketAddrV4]) -> Self {
-        NodeSpec { ip, port: None, server: true, bootstrap: bootstrap.to_vec(), bootstrap_names: vec![], public_ip: None, settings: None, nat_public: None }
+        NodeSpec { ip, port: None, server: true, bootstrap: bootstrap.to_vec(), bootstrap_names: vec![], public_ip: None, settings: None, nat_public: None, nat_open: false }
     }
     pub fn client(ip: Ipv4Addr, bootstrap: &[SocketAddrV4]) -> Self {
         NodeSpec { server: false, ..NodeSpec::server(ip, bootstrap) }
@@ -563,7 +568,7 @@ impl World {
     pub fn spawn(&self, spec: NodeSpec) -> io::Result<Node> {
         self.settle();
         let before: HashSet<SockId> = self.sh.lock().socks.keys().copied().collect();
-        self.sh.lock().bind_plan.push_back(BindPlan { released: false, ip: spec.ip, nat_public: spec.nat_public });
+        self.sh.lock().bind_plan.push_back(BindPlan { released: false, ip: spec.ip, nat_public: spec.nat_public, nat_open: spec.nat_open });
         let mut b = Dht::builder();
         let boots: Vec<String> = spec.bootstrap_names.iter().cloned().chain(spec.bootstrap.iter().map(|a| a.to_string())).collect();
         b.bootstrap(&boots);
